@@ -212,9 +212,16 @@ def main(tier):
     for t in tuples:
         by_cls.setdefault(t["cls"], []).append(t["p"])
     jobs = []
+    def differ(p, q):
+        return sum(1 for k in p if p[k] != q.get(k))
     for t in tuples:
         pool = by_cls[t["cls"]]
-        others = [r.choice(pool) for _ in range(6 if thorough else 3)]
+        # every tuple that differs in exactly one parameter (so that each parameter is seen to matter),
+        # plus a few arbitrary ones
+        near = [q for q in pool if differ(t["p"], q) == 1]
+        if len(near) > 12:
+            near = r.sample(near, 12)
+        others = near + [r.choice(pool) for _ in range(6 if thorough else 3)]
         jobs.append((t, others, 0))
     traces = pmap(sig_records, jobs)
     comps = components(rng("c20-comps"), 400 if thorough else 120)
